@@ -84,7 +84,15 @@ def gen_system(rng):
             k = rng.choice([1, 2, 2])
             t = C(rng.choice(['f', 'g']), *[rng.choice(later + CONST[:2]) for _ in range(k)])
         elif r < 0.9:
-            t = L([rng.choice(later + CONST[:2]) for _ in range(rng.choice([1, 2, 2, 17, 33]))])
+            n_items = rng.choice([1, 2, 2, 17, 33])
+            if n_items > 2:
+                # long lists hold constants and at most two references (sizes multiply along chains of references)
+                items = [rng.choice(CONST[:3]) for _ in range(n_items)]
+                for _ in range(rng.choice([0, 1, 2])):
+                    items[rng.randrange(n_items)] = rng.choice(later)
+                t = L(items)
+            else:
+                t = L([rng.choice(later + CONST[:2]) for _ in range(n_items)])
         else:
             # open list whose tail is another variable: closed later, possibly through a chain of variables
             t = L([rng.choice(later + CONST[:2]) for _ in range(rng.choice([1, 2]))], rng.choice(later))
@@ -196,6 +204,10 @@ def run_case(ctx, seed, idx, tier):
     c = {}
     if exp is None:
         return {'c': c, 'nt': False, 'key': None, 'discard': 'sto_or_unsat'}
+    from ..terms import term_size
+    if sum(term_size(e) for e in exp) > 3000:
+        # (the observer's snapshot has a node cap; huge answers are not what this check is about)
+        return {'c': c, 'nt': False, 'key': None, 'discard': 'answer_too_big'}
     of = outer_first(eqs, order)
     if of:
         c['outer_first_orders'] = 1
